@@ -189,6 +189,10 @@ type Gvar struct {
 	GlyphVariationDatas           []GlyphVariationData                                                                           `isOpaque:""`
 }
 
+// AxisCount returns the number of axis declared by the table,
+// which must be the same as the one in the 'fvar' table.
+func (gv *Gvar) AxisCount() int { return int(gv.axisCount) }
+
 func (gv *Gvar) parseGlyphVariationDataOffsets(src []byte) error {
 	var err error
 	gv.glyphVariationDataOffsets, err = ParseLoca(src, int(gv.glyphCount), gv.flags&1 != 0)
